@@ -196,6 +196,12 @@ def edge_mdps():
                 T2 = ((('a', ((0, one - eps), (1, eps)), (F(0), r_exit)), ('b', ((0, one - eps), (1, eps)), F(0))),
                       (('a', ((1, one),), F(0)),))
                 yield ('mdp', 2, T2, (1,), ((0, one),), g)
+            # all rewards out of the sticky state are 0 (only its near-1 self-loop probability keeps it from being absorbing)
+            T3 = ((('a', ((1, one),), F(-1)),),
+                  (('a', ((1, one - eps), (2, eps)), F(0)), ('b', ((1, one - eps), (2, eps)), F(0))),
+                  (('a', ((3, one),), F(-5)),),
+                  (('a', ((3, one),), F(0)),))
+            yield ('mdp', 4, T3, (3,), ((0, one),), g)
     # (2) tiny branch into a costly state
     for eps in (EPS6, EPS9):
         for g in (F(9, 10), F(1)):
